@@ -787,6 +787,10 @@ func LogBytes(kind byte, b []byte) {
 	binary.LittleEndian.PutUint64(hdr[1:], uint64(len(b)))
 	w.h.Write(hdr[:])
 	w.h.Write(b)
+	if eventDump != nil {
+		sum := sha256.Sum256(b)
+		fmt.Fprintf(eventDump, "%d %d %c bytes %d %x\n", w.Epoch, w.steps, kind, len(b), sum[:6])
+	}
 }
 
 // LogEvent feeds a small record into the run's event hash.
@@ -796,7 +800,21 @@ func LogEvent(kind byte, a, b uint64) {
 	}
 }
 
+// eventDump: a debugging aid for the determinism self-test. With VERIF_EVENTLOG=<file> every
+// record of the event log is also written there as text (run epoch, step, kind, operands), so that
+// two executions of one run whose hashes differ can be compared with diff.
+var eventDump = func() *os.File {
+	if p := os.Getenv("VERIF_EVENTLOG"); p != "" {
+		f, _ := os.OpenFile(p, os.O_CREATE|os.O_WRONLY|os.O_TRUNC, 0o644)
+		return f
+	}
+	return nil
+}()
+
 func (w *World) logRec(kind byte, a, b uint64) {
+	if eventDump != nil {
+		fmt.Fprintf(eventDump, "%d %d %c %d %d\n", w.Epoch, w.steps, kind, a, b)
+	}
 	var rec [17]byte
 	rec[0] = kind
 	binary.LittleEndian.PutUint64(rec[1:], a)
@@ -921,4 +939,13 @@ func LiveTasks() int {
 		}
 	}
 	return n
+}
+
+// RunEpoch identifies the simulated run in progress: its epoch number, or 0 outside any run (also in
+// the ambient world). State that must not survive from one run to the next compares it.
+func RunEpoch() uint64 {
+	if W == nil || W.ambient || W.ended {
+		return 0
+	}
+	return W.Epoch
 }
